@@ -236,7 +236,8 @@ class Engine:
         x, y = Const(fresh_name('lx'), s.t.elem.sort()), Const(fresh_name('ly'), s.t.elem.sort())
         atmost1 = ForAll([x, y], Implies(And(Select(s.term, x), Select(s.term, y)), x == y))
         empty = ForAll([x], Not(Select(s.term, x)))
-        table = {(ast.LtE, 1): atmost1, (ast.Lt, 2): atmost1, (ast.Gt, 1): Not(atmost1), (ast.GtE, 2): Not(atmost1),
+        exactly1 = And(Not(empty), atmost1)
+        table = {(ast.Eq, 1): exactly1, (ast.NotEq, 1): Not(exactly1), (ast.LtE, 1): atmost1, (ast.Lt, 2): atmost1, (ast.Gt, 1): Not(atmost1), (ast.GtE, 2): Not(atmost1),
                  (ast.Eq, 0): empty, (ast.LtE, 0): empty, (ast.Lt, 1): empty, (ast.NotEq, 0): Not(empty),
                  (ast.Gt, 0): Not(empty), (ast.GtE, 1): Not(empty)}
         if (op, k) in table: return Sym(TBool, table[(op, k)])
